@@ -12,6 +12,7 @@ type (
 	Duration = time.Duration
 	Month    = time.Month
 	Location = time.Location
+	Weekday  = time.Weekday
 	Timer    = vrt.Timer
 	Ticker   = vrt.Ticker
 )
@@ -24,9 +25,18 @@ const (
 	Minute      = time.Minute
 	Hour        = time.Hour
 	RFC3339     = time.RFC3339
+	RFC3339Nano = time.RFC3339Nano
+	RFC1123     = time.RFC1123
+	DateTime    = time.DateTime
 )
 
-var UTC = time.UTC
+var (
+	UTC   = time.UTC
+	Local = time.Local
+)
+
+func Tick(d Duration) <-chan Time { return vrt.NewTicker(d).C }
+func UnixMicro(us int64) Time     { return time.UnixMicro(us) }
 
 func Now() Time                                  { return vrt.Now() }
 func Since(t Time) Duration                      { return vrt.Since(t) }
